@@ -197,7 +197,7 @@ def run(c):
     r1, _, _ = enumerate_and_replay(c, dict(BASE, Settings={1, 2}, AllowTombs=False, MaxFlush=3, MaxCompact=3),
                                     "all histories: 3 keys, puts only, settings 1,2")
     need(c, r1, "picks_taking_part_of_a_level_ge1", "states_middle_and_base_populated", "states_multi_table_level",
-         "flushes_between_pick_and_swap", "fixpoint_swaps", "builds_observed")
+         "flushes_between_pick_and_swap", "fixpoint_swaps", "builds_observed", "replaced_lists_looked_at_again")
     enumerate_and_replay(c, dict(BASE, Settings={2, 4}, NKeys=2, MaxFlush=3, MaxCompact=4),
                          "all histories: 2 keys, tombstones, settings 2,4")
     enumerate_and_replay(c, dict(BASE, Settings={4}, NKeys=2, NLevels=4, MaxFlush=4, MaxFlushKeys=1, MaxCompact=6),
